@@ -8,6 +8,8 @@ Import ListNotations.
 (* GP._cross(self, father, mother, max_father, max_mother):
    0 father  1 mother  2 max_father  3 max_mother  4 father_offspring  5 father_point  6 sub_father
    7 flag_father  8 mother_offspring  9 mother_point  10 sub_mother  11 flag_mother  12 branch *)
+(* canonical form of the translator: two consecutive `if flag_father` statements of the source (the links, then the
+   re-parenting) are ONE if whose branches are the concatenations -- the flag is a local that no heap write changes *)
 Definition cross_descr : list stmt :=
   [ SCopy 4 0; SDraw 5 2 2; SFind 6 7 4 5;
     SCopy 8 1; SDraw 9 2 3; SFind 10 11 8 9;
@@ -16,14 +18,13 @@ Definition cross_descr : list stmt :=
           [ SAssign 12 (6, [FLeft]);
             SIf (CVar 11)
               [ SSet (6, []) FLeft (RPath (10, [FLeft])); SSet (10, [FLeft]) FFlag (RBool true) ]
-              [ SSet (6, []) FLeft (RPath (10, [FRight])); SSet (10, [FRight]) FFlag (RBool true) ] ]
+              [ SSet (6, []) FLeft (RPath (10, [FRight])); SSet (10, [FRight]) FFlag (RBool true) ];
+            SSet (6, [FLeft]) FParent (RPath (6, [])) ]
           [ SAssign 12 (6, [FRight]);
             SIf (CVar 11)
               [ SSet (6, []) FRight (RPath (10, [FLeft])); SSet (10, [FLeft]) FFlag (RBool false) ]
-              [ SSet (6, []) FRight (RPath (10, [FRight])); SSet (10, [FRight]) FFlag (RBool false) ] ];
-        SIf (CVar 7)
-          [ SSet (6, [FLeft]) FParent (RPath (6, [])) ]
-          [ SSet (6, [FRight]) FParent (RPath (6, [])) ];
+              [ SSet (6, []) FRight (RPath (10, [FRight])); SSet (10, [FRight]) FFlag (RBool false) ];
+            SSet (6, [FRight]) FParent (RPath (6, [])) ];
         SIf (CVar 11)
           [ SSet (10, []) FLeft (RPath (12, [])); SSet (12, []) FFlag (RBool true) ]
           [ SSet (10, []) FRight (RPath (12, [])); SSet (12, []) FFlag (RBool false) ];
